@@ -163,6 +163,8 @@ Definition root_create (rs : resolver) (root : Z) (path : bytes) (ty : inode_typ
 (* RootRef::create_file (root.rs:855-909) *)
 Definition root_create_file (rs : resolver) (root : Z) (path : bytes) (flags mode : N)
   : prog (result Z ekind) :=
+  (* O_PATH is refused up front: the kernel would drop O_CREAT and open the unresolved final component (F-S) *)
+  if CREATE_FILE_REFUSES_OPATH && has flags O_PATH then Ret (Err InvalidArgument) else
   dn <-? parent_and_name rs root path ;;
   let '(dir, name) := dn in
   r <- os (w_openat fz dir name (N.lor flags CREATE_FILE_FORCED) mode) ;;
